@@ -108,7 +108,7 @@ var specs = map[string]propSpec{
 	},
 	"C13": {
 		Units: []unitSpec{
-			{Name: "rapid-context-composition", Test: "TestC13Rapid", Rapid: true, QuickChecks: 40000, ThoroughChecks: 500000, QuickShards: 4, ThoroughShards: 16},
+			{Name: "rapid-context-composition", Test: "TestC13Rapid", Rapid: true, QuickChecks: 30000, ThoroughChecks: 500000, QuickShards: 4, ThoroughShards: 16},
 		},
 		Assumptions: refAssumptions("addr(n) uses child::node()[i] steps (C03 fragment) and @name for attributes (attribute names are unique per element)"),
 	},
